@@ -6,7 +6,8 @@ finite input, T must (a) be homogeneous of degree 1 in the data (scale consisten
 change when the whole input is multiplied by a constant), and (b) have a coefficient of the order of machine epsilon.
 T == 0 (exact comparison) trivially satisfies both."""
 import math
-from .ir import tag, show, is_f64_method, f64_method_name
+from .ir import tag, show, short, subterms, is_f64_method, f64_method_name
+from .framework import site_of
 from .absint import AbsEval, Iv
 
 EPS = 2.220446049250313e-16
@@ -102,3 +103,98 @@ def tolerance_verdict(cond, val, is_datum):
         return True, 'relative tolerance with coefficient <= %.3g (<= %g eps)' % (hi, K_EPS)
     return False, ('relative tolerance coefficient up to %.3g = %.3g eps: data differing by that much relative amount is treated as equal, '
                    'far beyond a small multiple of machine epsilon' % (hi, hi / EPS))
+
+
+def check_tolerances(prog, rep, rule, roots):
+    """apply tolerance_verdict to every data-difference test that makes a bool predicate (reachable from `roots` through
+    in-crate bool callees) answer false"""
+    pdb = prog.pdb
+    preds = list(roots)
+    seen = set()
+    n = 0
+    while preds:
+        k = preds.pop()
+        if k in seen:
+            continue
+        seen.add(k)
+        f = prog.func(k)
+        if f is None:
+            continue
+        for c in f.calls():
+            if c.path and c.path.startswith('linalg::') and prog.func(c.path) is not None and pdb.bodies[c.path].local_ty(0) == 'bool':
+                preds.append(c.path)
+        rep.touch(k)
+        data_roots = [('arg', i + 1, f.names.get(i + 1)) for i in range(f.body.arg_count)]
+
+        def is_datum(t, roots=data_roots):
+            if tag(t) != 'index':
+                return False
+            r = t[1]
+            while tag(r) == 'field':
+                r = r[1]
+            return r in roots
+        for s_ in f.stores():
+            if not (tag(s_.target) == 'local' and s_.target[1] == 0 and s_.value == ('const', 'bool', False)):
+                continue
+            for cond, val in f.guards().get(s_.bb, []):
+                reads = set(x for x in subterms(cond) if is_datum(x))
+                if len(reads) < 2 or tag(cond) != 'bin' or cond[4] not in ('f64', 'f32'):
+                    continue
+                n += 1
+                key = '%s:%s' % (rule, k)
+                ok, text = tolerance_verdict(cond, val, is_datum)
+                if ok is None:
+                    rep.undecided(rule, key, text)
+                else:
+                    (rep.ok if ok else rep.viol)(rule, key, text, site_of(s_.span))
+    return n
+
+
+def _is_zero(t):
+    return tag(t) == 'const' and isinstance(t[2], (int, float)) and t[2] == 0
+
+
+def is_element_read(t):
+    """an element of a buffer: x[i] or an Index call with scalar result (not a range / row slice)"""
+    if tag(t) == 'index':
+        return tag(t[2]) != 'range'
+    if tag(t) == 'call' and (t[1].endswith('>::index') or t[1].endswith('>::index_mut')) and len(t[2]) == 2:
+        return tag(t[2][1]) in ('adt', 'array', 'aggregate') or show(t[2][1]).startswith('usize{')
+    return False
+
+
+def check_scale_guards(prog, rep, rule, fnkeys, floor_each=1):
+    """every branch on a floating-point comparison in the listed factorisation bodies must be scale consistent: comparing
+    data with the constant 0, or two quantities of the same degree in the data.  (P.A = L.U and L.L^T = A are claimed for every
+    matrix, hence also for c*A: a threshold that is not homogeneous makes the factorisation of c*A differ structurally.)"""
+    total = 0
+    for k in fnkeys:
+        f = prog.func(k)
+        if f is None:
+            rep.viol(rule, '%s:%s' % (rule, k), 'function disappeared')
+            continue
+        rep.touch(k)
+        seen = set()
+        n = 0
+        for bb, gl in sorted(f.guards().items()):
+            for cond, val in gl:
+                if tag(cond) != 'bin' or cond[4] not in ('f64', 'f32') or cond[1] not in ('Lt', 'Le', 'Gt', 'Ge', 'Eq', 'Ne') or cond in seen:
+                    continue
+                seen.add(cond)
+                n += 1
+                key = '%s:%s#%d' % (rule, k, n)
+                a, b = cond[2], cond[3]
+                if _is_zero(a) or _is_zero(b):
+                    rep.ok(rule, key, 'comparison with exact zero: %s' % show(cond)[:100])
+                    continue
+                da, db = degree(a, is_element_read), degree(b, is_element_read)
+                if da is None or db is None:
+                    rep.undecided(rule, key, 'degree of %s not inferred' % show(cond)[:100], proof=False)
+                elif da == db:
+                    rep.ok(rule, key, 'both sides have degree %g in the data: %s' % (da, show(cond)[:80]))
+                else:
+                    rep.viol(rule, key, 'threshold test is not scale consistent: %s has degree %g, %s has degree %g; the factorisation of c*A then '
+                             'differs structurally from that of A (e.g. a pivot of 1e-17 is treated as zero and its column is left undivided)' % (
+                                 show(a)[:70], da, show(b)[:40], db), site_of(f.body))
+        total += n
+    return total
